@@ -91,7 +91,7 @@ PROPS = {
         'modules': ['contracts.C11_negotiation'],
         'level': 'proof',
         'level_text': '_MediaRange.match_score equals the documented 5-component specificity score over symbolic type/subtype strings and parameter values '
-                      '(49 parameter shapes), q validation, quality = q of a lexicographically maximal matching range, best_match never returns a q=0 / '
+                      '(64 parameter shapes), q validation, quality = q of a lexicographically maximal matching range, best_match never returns a q=0 / '
                       'unmatched candidate and breaks ties by order; Handlers cache coherence as an epoch invariant for __setitem__/__delitem__/__init__/copy '
                       'and for pop/popitem/clear/update/setdefault executed from the real stdlib UserDict/MutableMapping source; resolve() is a pure function '
                       'of the current mapping.',
@@ -150,7 +150,7 @@ PROPS = {
                       'invariant linking WebSocket._state to it, assumed at entry and proved at exit of every public method (accept, close, send_*, receive_*, '
                       'properties, __init__) with the documented error per (state, operation); close-code table; app level _handle_websocket with the real error '
                       'handlers inlined: 3404 / 3405 / 3000+status / error_close_code / 3011 fallback / 1011 abandoned handshake.',
-        'level_note': 'Server errors are five representative exception shapes (classification by message text is regex-based). _BufferedReceiver is a stub here '
+        'level_note': 'Server errors are seven representative exception shapes at operation level (four at app level) (classification by message text is regex-based). _BufferedReceiver is a stub here '
                       '(C18). Three recorded known findings (close() on a lost connection; custom error handler that does not close).',
     },
     'C04': {
